@@ -1404,8 +1404,12 @@ impl Node {
         let clock = services.clock;
         let validator_factory = services.validator_factory;
         let policy = validator_factory.policy(node_config.network);
-        let global_velocity_control = Self::make_velocity_control(&policy);
-        let fee_velocity_control = Self::make_fee_velocity_control(&policy);
+        // Keep the velocity already counted: a restored state carries the persisted
+        // controls.  A control is reset only if the policy's spec has changed.
+        let mut global_velocity_control = state.velocity_control.clone();
+        global_velocity_control.update_spec(&policy.global_velocity_control());
+        let mut fee_velocity_control = state.fee_velocity_control.clone();
+        fee_velocity_control.update_spec(&policy.fee_velocity_control());
 
         let state = Mutex::new(state.with_log_prefix(
             global_velocity_control,
